@@ -10,6 +10,7 @@ from __future__ import annotations
 
 import copy
 import importlib
+from pathlib import Path
 import json
 import multiprocessing as mp
 import os
@@ -301,6 +302,55 @@ def report_failures(ctx: Ctx, modname: str, failures: list[dict], valid: Any = N
             continue
         seen.add(sig)
         ctx.violation(d2, {"case": small})
+
+
+# ---- coverage-guided campaigns (atheris / libFuzzer) ----------------------------------------------------------
+def run_atheris(ctx: Ctx, target: str, runs: int, shards: int, max_len: int) -> None:
+    """Runs vf/fuzz.py <target> in `shards` subprocesses (libFuzzer seeds derived from VERIF_SEED). An unknown discrepancy
+    found by a campaign becomes a VIOLATION with the decoded input as replay; counters go to the evidence."""
+    import shutil
+    import subprocess
+    import sys
+    import tempfile
+
+    from vf.common import VERIF
+
+    if not (VERIF / ".deps" / "atheris").exists():
+        ctx.extra["atheris"] = "not installed (MANIFEST.setup_cmd installs it into /verif/.deps): campaign skipped"
+        return
+    base = Path(tempfile.mkdtemp(prefix="vffuzz_"))
+    procs = []
+    for i in range(shards):
+        art = base / f"art{i}"
+        corpus = base / f"corpus{i}"
+        corpus.mkdir(parents=True)
+        seed = derive_seed(ctx.prop, "atheris", ctx.seed, i) % (2**31 - 1) + 1
+        env = dict(os.environ, PYTHONPATH=os.pathsep.join([str(VERIF), str(VERIF / ".deps"), os.environ.get("PYTHONPATH", "")]))
+        procs.append((art, subprocess.Popen([sys.executable, str(VERIF / "vf" / "fuzz.py"), target, str(art), f"-runs={runs}", f"-seed={seed}", f"-max_len={max_len}", f"-artifact_prefix={art}/", str(corpus)], stdout=subprocess.DEVNULL, stderr=subprocess.DEVNULL, env=env)))
+    execs = nontrivial = 0
+    try:
+        for art, p in procs:
+            try:
+                p.wait(timeout=3600)
+            except subprocess.TimeoutExpired:
+                p.kill()
+                ctx.stats["atheris_timeouts(inconclusive)"] += 1
+            st_file = art / "stats.json"
+            if st_file.exists():
+                st_ = json.loads(st_file.read_text())
+                execs += st_["execs"]
+                nontrivial += st_["nontrivial"]
+                ctx.known.hits["(atheris, known findings skipped)"] += st_.get("known", 0)
+            f = art / "finding.json"
+            if f.exists():
+                payload = json.loads(f.read_text())
+                d = payload.pop("discrepancy")
+                ctx.violation(d, payload)
+    finally:
+        shutil.rmtree(base, ignore_errors=True)
+    ctx.evaluations += execs
+    ctx.nontrivial_extra += 0
+    ctx.extra["atheris"] = {"target": target, "shards": shards, "runs_per_shard": runs, "executions": execs, "nontrivial_executions": nontrivial}
 
 
 # ---- replay -------------------------------------------------------------------------------------------
